@@ -107,6 +107,7 @@ pub struct EqTable {
     map: BTreeMap<([u8; 64], u8, u8), (GameState, u64, u64, Vec<Board>, Pending)>,
     twins: usize,
     retractions: usize,
+    decoys: usize,
     hashes: BTreeMap<u64, u64>,
 }
 impl EqTable {
@@ -114,6 +115,7 @@ impl EqTable {
         self.map.clear();
         self.twins = 0;
         self.retractions = 0;
+        self.decoys = 0;
         self.hashes.clear();
     }
 }
@@ -767,6 +769,81 @@ impl World {
             // states with hardly any action left while the repetition rules are biting are where the
             // summary queries and the result can go wrong: continue from them more often
             ctx.last_feature_weight = if rs.len() <= 2 && withheld_any { 8 } else if rs.len() <= 3 || (withheld_any && step_e >= 2) { 3 } else { 1 };
+        }
+        // ---- answers are functions of the state: near-variants of this position (one piece's owner
+        // flipped, all owners swapped, the other side to move, one piece's type changed) are
+        // parsed and queried as decoys, then this state is asked again: it must answer as before.
+        // Anything the engine remembers between calls under a key that does not tell such
+        // positions apart shows up here, inside one run, and therefore replays.
+        let decoy_props = p(1) | p(4) | p(6) | p(7) | p(12);
+        if ctx.own & decoy_props != 0 && !self.m.setup && eq.decoys < 3 && (self.path_fp >> 7) % 5 == 0 {
+            eq.decoys += 1;
+            ctx.stats.inc("decoy_rounds");
+            let b = self.m.board;
+            let occupied: Vec<usize> = (0..64).filter(|i| b[*i].is_some()).collect();
+            let mut variants: Vec<(Board, Side)> = vec![];
+            if !occupied.is_empty() {
+                let i = occupied[(self.path_fp as usize >> 11) % occupied.len()];
+                let mut v = b;
+                if let Some((s, k)) = v[i] {
+                    v[i] = Some((s.other(), k));
+                }
+                variants.push((v, side_e));
+                let mut v = b;
+                if let Some((s, k)) = v[i] {
+                    v[i] = Some((s, KINDS[(k as usize + 1) % 6]));
+                }
+                variants.push((v, side_e));
+            }
+            let mut v = b;
+            for c in v.iter_mut() {
+                if let Some((s, k)) = *c {
+                    *c = Some((s.other(), k));
+                }
+            }
+            variants.push((v, side_e));
+            variants.push((b, side_e.other()));
+            for (vb, vs) in variants {
+                let crumb = crumb_take();
+                let text = diagram(&vb, vs, self.m.move_no);
+                // a decoy may be a position no game reaches (two elephants of one colour, a rabbit
+                // on its goal rank): whatever the engine does with it is nobody's finding
+                let answered = std::panic::catch_unwind(std::panic::AssertUnwindSafe(|| {
+                    text.parse::<GameState>().ok().map(|d| {
+                        // the rule-only list first: it is the first thing asked of the decoy after
+                        // the real state was queried
+                        let mut l = strs(&d.valid_actions_no_rep());
+                        let _ = d.valid_actions();
+                        let t = outcome_of(&d.is_terminal());
+                        let _ = d.can_pass(true);
+                        l.sort();
+                        l.dedup();
+                        (l, t)
+                    })
+                }));
+                last_panic_take();
+                crumb_restore(crumb);
+                // a decoy that is itself a legal position (material within bounds, nothing left
+                // unsupported on a trap) is a parsed legal position like any other: its answers
+                // are compared with the rules too
+                let legal_looking = unsupported_on_traps(&vb).is_empty() && [Side::Gold, Side::Silver].iter().all(|sd| KINDS.iter().all(|k| count(&vb, *sd, *k) <= k.quota()));
+                if let (Ok(Some((got_list, got_result))), true) = (&answered, legal_looking) {
+                    let dm = Model::from_position(vb, vs, self.m.move_no);
+                    let mut drec = Recorder::new();
+                    drec.begin(&vb, vs);
+                    let mut want: Vec<String> = dm.legal().iter().map(|a| a.text()).collect();
+                    want.sort();
+                    ctx.check("decoy.rule_only_set", p(1), *got_list == want, || format!("a position queried right after this one lists {:?}, the rules give {:?}:\n{}", got_list, want, text));
+                    let want_r = dm.result(&drec);
+                    ctx.check("decoy.result", p(4), *got_result == want_r, || format!("a position queried right after this one reports {:?}, the official order gives {:?}:\n{}", got_result, want_r, text));
+                }
+                // one-entry memos only remember the last call: ask again after every decoy
+            let rep2 = eng!("valid_actions", self.gs.valid_actions());
+            let norep2 = eng!("valid_actions_no_rep", self.gs.valid_actions_no_rep());
+            let result2 = eng!("is_terminal", self.gs.is_terminal());
+            ctx.check("repeatable.lists", p(1) | p(6) | p(7) | p(12), rep2 == rep && norep2 == norep, || format!("asked again after other positions were queried, the state lists {:?} / rule-only {:?} instead of {:?} / {:?}", strs(&rep2), strs(&norep2), strs(&rep), strs(&norep)));
+            ctx.check("repeatable.result", p(4) | p(7), outcome_of(&result2) == outcome_of(&result), || format!("asked again after other positions were queried, the result is {:?} instead of {:?}", result2, result));
+            }
         }
         ctx.check("panic_free.state_queries", p(19), true, String::new);
         self.settle(ctx)?;
